@@ -12,6 +12,10 @@
 //	   (gc = the chunks the request uploaded itself AND handed to a chunk-deletion sink, as their sorted data; - if none:
 //	   file ids assigned during the request are told by the stand-in's key counter, deletions by hook H5)
 //	   (putnet = put over a real loopback connection; a failing body is a connection the client closes early)
+//	putuf|postuf <dir> <name> <append> <chunk> <k> <body>          => <status> uf=<refused assigns> gc=<data,..> <entry>
+//	   (an error-free body; the stand-in master refuses every attempt — dataToChunk makes three — to get a file id for
+//	   the chunk read k-th (0-based), all other chunks are stored; the rest of the body is delivered only after the
+//	   refused chunk has given up, so that other chunks of the request complete AFTER the failure.  uf = assigns refused)
 //	pub <bytes> <failAt>                                           => same | differ:..   (public PostHandler ?maxMB=1 vs hook path at 1<<20)
 //
 // <dir> is `d` (plain directory) or `etc` (below /etc, the filer.DirectoryEtcRoot special case).
@@ -39,6 +43,7 @@ import (
 	"strconv"
 	"strings"
 	"sync"
+	"sync/atomic"
 	"time"
 
 	"google.golang.org/grpc"
@@ -292,13 +297,12 @@ func opGrpc(dir, name, kind string, chunk int, body []byte) {
 	}))
 }
 
-func buildRequest(method, dir, name string, isAppend bool, failAt int, body []byte) (*http.Request, string) {
-	path := realPath(dir, name)
-	url := path
-	httpMethod := "PUT"
-	var raw []byte
-	contentType := ""
-	contentStart := 0
+// rawRequest: method, URL, the bytes of the request body as they travel, its content type, and where in them the
+// file content starts
+func rawRequest(method, dir, name string, isAppend bool, body []byte) (httpMethod, url string, raw []byte, contentType string, contentStart int, path string) {
+	path = realPath(dir, name)
+	url = path
+	httpMethod = "PUT"
 	switch method {
 	case "put":
 		raw = body
@@ -326,6 +330,11 @@ func buildRequest(method, dir, name string, isAppend bool, failAt int, body []by
 	if isAppend {
 		url += "?op=append"
 	}
+	return
+}
+
+func buildRequest(method, dir, name string, isAppend bool, failAt int, body []byte) (*http.Request, string) {
+	httpMethod, url, raw, contentType, contentStart, path := rawRequest(method, dir, name, isAppend, body)
 	var rdr io.ReadCloser
 	if failAt >= 0 {
 		rdr = &failingBody{data: raw[:contentStart+failAt], err: errors.New("verif: connection reset")}
@@ -353,6 +362,91 @@ func opWrite(method, dir, name string, isAppend bool, chunk int, failAt int, bod
 		w := httptest.NewRecorder()
 		fsrv.VerifPostHandlerChunkBytes(w, r, r.ContentLength, int32(chunk))
 		return append([]string{strconv.Itoa(w.Code), gcToken(before)}, dump(path)...)
+	}))
+}
+
+// ---- putuf/postuf: a chunk upload that fails for good while the rest of the request goes on
+
+// gatedBody delivers data; a Read never passes a gate position, and the first Read AT a gate position runs the gate's
+// function first (a slow client: the bytes behind the gate arrive when the function returns)
+type gate struct {
+	at int
+	fn func()
+}
+
+type gatedBody struct {
+	data  []byte
+	pos   int
+	gates []gate // ascending positions
+}
+
+func (b *gatedBody) Read(p []byte) (int, error) {
+	for len(b.gates) > 0 && b.gates[0].at <= b.pos {
+		fn := b.gates[0].fn
+		b.gates = b.gates[1:]
+		fn()
+	}
+	if b.pos >= len(b.data) {
+		return 0, io.EOF
+	}
+	end := len(b.data)
+	if len(b.gates) > 0 && b.gates[0].at < end {
+		end = b.gates[0].at
+	}
+	n := copy(p, b.data[b.pos:end])
+	b.pos += n
+	return n, nil
+}
+func (b *gatedBody) Close() error { return nil }
+
+// dataToChunk sleeps 251+502+753 ms between/after its three attempts; the third sleep runs after the third refusal.
+// The bytes behind the refused chunk are held back until the refusals are used up and then this much longer, so that
+// the chunks behind it finish after the refused one has returned its error.
+const ufSettle = 753*time.Millisecond + 550*time.Millisecond
+
+func waitFor(cond func() bool, d time.Duration) {
+	end := time.Now().Add(d)
+	for !cond() && time.Now().Before(end) {
+		time.Sleep(5 * time.Millisecond)
+	}
+}
+
+func opWriteUF(method, dir, name string, isAppend bool, chunk int, k int, body []byte) {
+	opNo++
+	tr.Op(method, []string{dir, name, hx.B(isAppend), strconv.Itoa(chunk), strconv.Itoa(k), hx.Hex(body)}, hx.Guard(func() []string {
+		before := vol.Next()
+		delTake()
+		httpMethod, url, raw, contentType, contentStart, path := rawRequest(strings.TrimSuffix(method, "uf"), dir, name, isAppend, body)
+		uploads0 := atomic.LoadInt64(&vol.Uploads)
+		rdr := &gatedBody{data: raw}
+		armed := false
+		if chunk > 0 && k >= 0 && k*chunk < len(body) {
+			// chunks 0..k-1 are stored (their assigns are behind us), then the next three assigns are refused: they are
+			// the three attempts of chunk k, no other chunk of the request has been read yet
+			rdr.gates = append(rdr.gates, gate{contentStart + k*chunk, func() {
+				waitFor(func() bool { return atomic.LoadInt64(&vol.Uploads) >= uploads0+int64(k) }, 20*time.Second)
+				atomic.StoreInt64(&mst.FailAssign, 3)
+				armed = true
+			}})
+			if (k+1)*chunk < len(body) {
+				rdr.gates = append(rdr.gates, gate{contentStart + (k+1)*chunk, func() {
+					waitFor(func() bool { return atomic.LoadInt64(&mst.FailAssign) == 0 }, 20*time.Second)
+					time.Sleep(ufSettle)
+				}})
+			}
+		}
+		r := httptest.NewRequest(httpMethod, url, rdr)
+		r.ContentLength = int64(len(raw))
+		if contentType != "" {
+			r.Header.Set("Content-Type", contentType)
+		}
+		w := httptest.NewRecorder()
+		fsrv.VerifPostHandlerChunkBytes(w, r, r.ContentLength, int32(chunk))
+		refused := int64(0)
+		if left := atomic.SwapInt64(&mst.FailAssign, 0); armed { // disarm: a request that uploads no k-th chunk leaves the switch set
+			refused = 3 - left
+		}
+		return append([]string{strconv.Itoa(w.Code), fmt.Sprintf("uf=%d", refused), gcToken(before)}, dump(path)...)
 	}))
 }
 
@@ -472,6 +566,8 @@ func exec(w []string) {
 		opGrpc(w[1], w[2], w[3], atoi(w[4]), hx.UnHex(w[5]))
 	case "put", "post", "postd", "postraw", "putnet":
 		opWrite(w[0], w[1], w[2], w[3] == "1", atoi(w[4]), atoi(w[5]), hx.UnHex(w[6]))
+	case "putuf", "postuf":
+		opWriteUF(w[0], w[1], w[2], w[3] == "1", atoi(w[4]), atoi(w[5]), hx.UnHex(w[6]))
 	case "pub":
 		opPub(atoi(w[1]), atoi(w[2]))
 	}
@@ -632,6 +728,40 @@ func (g *gen) failingCase(variant int) {
 	}
 }
 
+// uploadFailCase: requests one of whose chunk uploads is refused for good (all three attempts of dataToChunk) while the
+// chunks behind it are stored afterwards — as an overwrite of an existing file, on a new name, as an append, with the
+// first / a middle / the last chunk refused, PUT and multipart POST; each followed by an error-free append on the same
+// name (what is stored must be what was there before).  Every such request takes ~2.8 s of wall time (the retry
+// sleeps of the real code), almost no CPU: the number of these requests does not grow with the budget.
+func (g *gen) uploadFailCase() {
+	chunk := 4 + g.r.Intn(9)
+	opReset(0)
+	clean := func(n int) []byte {
+		b := g.r.Bytes(n)
+		for i := range b {
+			if b[i] == '\r' || b[i] == '\n' {
+				b[i] = 'x'
+			}
+		}
+		return b
+	}
+	size := func(k int) int { return k*chunk + 1 + g.r.Intn(chunk) } // k whole chunks and a last one of 1..chunk bytes
+	// over an existing file: the first chunk of three is refused
+	opWrite("put", "d", "f0", false, chunk, -1, g.body(chunk+1+g.r.Intn(2*chunk)))
+	opWriteUF("putuf", "d", "f0", false, chunk, 0, clean(size(2)))
+	opWrite("put", "d", "f0", true, chunk, -1, g.body(1+g.r.Intn(2*chunk)))
+	// a new name, multipart POST: a middle chunk is refused; then the name is written for good and appended to with
+	// the first chunk of the append refused
+	k := 1 + g.r.Intn(2)
+	opWriteUF("postuf", "d", "f1", false, chunk, k, clean(size(k+1+g.r.Intn(2))))
+	opWrite("post", "d", "f1", false, chunk, -1, g.body(size(1)))
+	opWriteUF([]string{"putuf", "postuf"}[g.r.Intn(2)], "d", "f1", true, chunk, g.r.Intn(2), clean(size(2)))
+	opWrite("post", "d", "f1", true, chunk, -1, g.body(1+g.r.Intn(chunk)))
+	// the LAST chunk is refused (nothing completes after the failure), and a request that has no k-th chunk
+	opWriteUF("putuf", "d", "f2", false, chunk, 2, clean(size(2)))
+	opWriteUF("postuf", "d", "f2", false, chunk, 3, clean(size(1)))
+}
+
 func main() {
 	a := hx.ParseArgs()
 	tr = hx.NewTrace(a.Out)
@@ -690,5 +820,13 @@ func main() {
 	// after the random cases (their stream stays what it was): failing bodies in every position a request can be in
 	for i := 0; i < 4; i++ {
 		g.failingCase(i)
+	}
+	// … and chunk uploads that the cluster refuses for good: one case (three at the thorough tier), whatever the budget
+	nuf := 1
+	if a.Thorough() {
+		nuf = 3
+	}
+	for i := 0; i < nuf; i++ {
+		g.uploadFailCase()
 	}
 }
